@@ -411,14 +411,52 @@ def shared_state_frame(repo, files, tag='state'):
                 mod_mutable.add(n.target.id)
         for n in ast.walk(tree):
             if isinstance(n, ast.ClassDef):
-                bad = []
+                bad, unsure = [], []
                 for st in n.body:
                     tg = st.targets if isinstance(st, ast.Assign) else ([st.target] if isinstance(st, ast.AnnAssign) and st.value is not None else [])
                     if tg and _is_mutable_value(st.value):
-                        bad.append((st.lineno, ast.unparse(st)[:80]))
-                records.append({'name': '%s.class.%s' % (base, n.name), 'ok': not bad,
-                                'detail': '; '.join('line %d: class-level mutable attribute %s' % b for b in bad), 'fn': '%s:%s' % (rel, n.name),
-                                'site': '%s:%s' % (rel, n.name), 'witness': None if not bad else {'file': rel, 'class': n.name, 'statements': bad}})
+                        # shared by every instance - which matters only if it is updated in place (a constant table or __slots__ is not
+                        # state).  Updates are looked for through self.<name>, cls.<name> and <Class>.<name> in the whole file.
+                        names = {t.id for t in tg if isinstance(t, ast.Name)}
+                        upd, rebound = [], False
+                        for m in ast.walk(tree):
+                            tgts2 = m.targets if isinstance(m, (ast.Assign, ast.Delete)) else ([m.target] if isinstance(m, ast.AugAssign) else [])
+                            for t2 in tgts2:
+                                cur, steps = t2, 0
+                                while isinstance(cur, ast.Subscript):
+                                    cur, steps = cur.value, steps + 1
+                                if isinstance(cur, ast.Attribute) and cur.attr in names and isinstance(cur.value, ast.Name) \
+                                        and cur.value.id in ('self', 'cls', n.name):
+                                    if steps > 0 or isinstance(m, ast.AugAssign):
+                                        upd.append(m.lineno)
+                                    elif isinstance(m, ast.Assign) and cur.value.id == 'self':
+                                        rebound = True      # the instance gets its own object: the class-level value is only a default
+                            if isinstance(m, ast.Call) and isinstance(m.func, ast.Attribute) and m.func.attr in MUTATORS:
+                                cur = m.func.value
+                                while isinstance(cur, ast.Subscript):
+                                    cur = cur.value
+                                if isinstance(cur, ast.Attribute) and cur.attr in names and isinstance(cur.value, ast.Name) \
+                                        and cur.value.id in ('self', 'cls', n.name):
+                                    upd.append(m.lineno)
+                            if isinstance(m, ast.Call) and m.args and ast.unparse(m.func) in (
+                                    'heapq.heappush', 'heapq.heappop', 'heapq.heapify', 'heapq.heapreplace', 'heapq.heappushpop', 'random.shuffle',
+                                    'bisect.insort', 'bisect.insort_left', 'bisect.insort_right'):
+                                cur = m.args[0]
+                                while isinstance(cur, ast.Subscript):
+                                    cur = cur.value
+                                if isinstance(cur, ast.Attribute) and cur.attr in names and isinstance(cur.value, ast.Name) \
+                                        and cur.value.id in ('self', 'cls', n.name):
+                                    upd.append(m.lineno)
+                        if upd and not rebound:
+                            bad.append((st.lineno, '%s (updated in place at line %s)' % (ast.unparse(st)[:80], ', '.join(map(str, sorted(set(upd)))))))
+                        elif upd:
+                            unsure.append((st.lineno, '%s (updated in place, but instances also get their own object)' % ast.unparse(st)[:80]))
+                rec = {'name': '%s.class.%s' % (base, n.name), 'ok': not bad and not unsure,
+                       'detail': '; '.join('line %d: class-level mutable attribute %s' % b for b in bad + unsure), 'fn': '%s:%s' % (rel, n.name),
+                       'site': '%s:%s' % (rel, n.name), 'witness': None if not bad else {'file': rel, 'class': n.name, 'statements': bad}}
+                if unsure and not bad:
+                    rec['undecided'] = True
+                records.append(rec)
         bad = []
         for fn in ast.walk(tree):
             if not isinstance(fn, (ast.FunctionDef, ast.AsyncFunctionDef)):
